@@ -162,7 +162,7 @@ def real_runs(progs, cfgs, trace=True):
               next(p for p in progs if p["name"] == j["id"].split("|")[0]).get("terminates")]
     for j, r in allres:
         name = j["id"].split("|")[0]
-        runs.append({"id": j["id"], "prog": name, "mode": j["mode"], "gomaxprocs": j["gomaxprocs"], "monitor": j["monitor"],
+        runs.append({"id": j["id"], "prog": name, "mode": j["mode"], "gomaxprocs": j["gomaxprocs"], "monitor": j["monitor"], "subscriber": j.get("subscriber", False),
                      "yield": j["yield"], "seed": j["seed"], "crash": r.get("crash"), "hang": r.get("hang", False) or r.get("timeout", False),
                      "prints": r.get("prints"), "blocked": r.get("blocked"), "late": r.get("late", 0), "pcount": r.get("pcount"),
                      "dcount": r.get("dcount"), "events": [] if r.get("overflow") or r.get("timeout") else (r.get("events") or []),
@@ -577,6 +577,22 @@ def _campaign(tier, seed, extra_progs):
         import sax
         saxexp = sax.expected_bags(runnable, work, tier)
         expect.update({n: e for n, e in saxexp.items() if e["unique"]})
+        # confirmation: a run whose printed multiset differs from the reference is repeated three times in fresh processes; the checks report a
+        # deviation only if it shows again (a single starved run on a loaded machine must not raise an alarm; a crash needs no confirmation)
+        byname_ = {p["name"]: p for p in progs}
+        cfree_ = {p["name"]: contraction_free(p["dump"]) for p in runnable}
+        suspects = [r for r in runs if r["prints"] is not None and not r["crash"] and not r["hang"] and not r["nonterminating"] and not r["late"]
+                    and r["prog"] in saxexp and saxexp[r["prog"]]["unique"] and not saxexp[r["prog"]]["sax_err"] and not saxexp[r["prog"]]["sax_left"]
+                    and (r["mode"] != "np" or cfree_.get(r["prog"])) and sorted(r["prints"]) != sorted(saxexp[r["prog"]]["bag"])]
+        for r in suspects[:40]:
+            jobs = [{"id": "%s#c%d" % (r["id"], k), "text": byname_[r["prog"]]["text"], "mode": r["mode"], "typecheck": True, "execute": True, "monitor": bool(r["monitor"]),
+                     "subscriber": bool(r.get("subscriber")), "gomaxprocs": r["gomaxprocs"], "seed": r["seed"] + k + 1, "yield": r["yield"], "trace": True, "dump": False,
+                     "max_ms": 12000, "max_events": 30000} for k in range(3)]
+            rr = vlib.run_jobs(os.path.join(vlib.BUILD, "vdrive"), jobs, batch=1, timeout=40, parallel=3)
+            valid = [x for x in rr.values() if not x.get("crash") and not x.get("hang") and not x.get("timeout") and not x.get("late")
+                     and not (x.get("events") and premature_quiescence(x["events"], r["mode"]))]
+            r["reruns"] = len(valid)
+            r["confirm"] = sum(1 for x in valid if sorted(x.get("prints") or []) != sorted(saxexp[r["prog"]]["bag"])) + sum(1 for x in rr.values() if x.get("crash"))
         exh = exhaustive(small, work, timeout=300 if tier == "quick" else 1500,
                          expect={n: e["bag"] for n, e in expect.items() if e.get("unique")})
         tm["exhaustive"] = time.time() - t1; t1 = time.time()
